@@ -23,8 +23,18 @@ func (p *Parser) parseMRPatternBody() (*types.PatternNode, error) {
 	return node, nil
 }
 
+// maxMRPatternDepth bounds the nesting of groups in a PATTERN. The pattern parser
+// is recursive; without a bound a statement with millions of nested parentheses
+// exhausts the goroutine stack, which is a fatal error rather than a parse error.
+const maxMRPatternDepth = 200
+
 // parseMRAlternation: sequence ('|' sequence)*
 func (p *Parser) parseMRAlternation() (*types.PatternNode, error) {
+	p.mrDepth++
+	defer func() { p.mrDepth-- }()
+	if p.mrDepth > maxMRPatternDepth {
+		return nil, fmt.Errorf("PATTERN is nested deeper than %d levels", maxMRPatternDepth)
+	}
 	first, err := p.parseMRSequence()
 	if err != nil {
 		return nil, err
